@@ -7,6 +7,7 @@ def commits():
     return [l.split()[0] for l in out.splitlines() if l.split(" ", 1)[1].startswith("verif hooks:")]
 
 CLAIMED = {
+ "C08": dict(cat="exploration", ref="DESIGN.md §3 C08", text="wip", note="wip", tech="deterministic simulation"),
  "C20": dict(cat="exploration", ref="DESIGN.md §3 C20", text="wip", note="wip", tech="deterministic simulation"),
  "C02": dict(cat="fault_enumeration", ref="DESIGN.md §3 C02", text="wip", note="wip", tech="deterministic simulation"),
  "C03": dict(cat="exploration", ref="DESIGN.md §3 C03", text="wip", note="wip", tech="deterministic simulation"),
